@@ -193,6 +193,13 @@ def main(argv=None):
                                                                  solver=o.get("solver"), solver_output=o.get("detail"),
                                                                  goal=o.get("goal"), files_changed=changed,
                                                                  note="no concrete failing input found by finite instantiation / native rings"))
+            if o["kind"] == "noraise" and changed and r["mode"] != "R" and "ContractViolation" not in (o.get("detail") or ""):
+                # an exception under proxy execution of CHANGED source: the harness (stub objects, symbolic arrays) may simply not
+                # follow the new code (e.g. a helper method extracted onto `self`).  Not a verdict: the proof is lost and the
+                # native rings, which run the real objects, decide whether the code raises on valid inputs.
+                proof_lost.append((r["unit"], "exception under proxy execution of changed source: " +
+                                   (o.get("detail") or "")[:300].replace("\n", " ")))
+                continue
             if o["kind"] == "unsupported":
                 # the function left the verifiable subset / the loop structure no longer matches the
                 # invariants: the proof is lost, which is not a violation (DESIGN 5.4).  The native rings
